@@ -114,7 +114,7 @@ func TestC11(t *testing.T) {
 					if streams {
 						fs = append(fs, fail{Kind: "store-stream"})
 						for k := 0; k <= S; k++ {
-							fs = append(fs, fail{Kind: "store-yield", K: k}, fail{Kind: "store-yield-deadline", K: k})
+							fs = append(fs, fail{Kind: "store-yield", K: k}, fail{Kind: "store-yield-deadline", K: k}, fail{Kind: "store-yield-eof", K: k})
 						}
 					} else {
 						bb := b
@@ -122,7 +122,7 @@ func TestC11(t *testing.T) {
 							bb = 100
 						}
 						for k := 0; k <= S/bb+1; k++ {
-							fs = append(fs, fail{Kind: "store-read", K: k}, fail{Kind: "store-read-deadline", K: k})
+							fs = append(fs, fail{Kind: "store-read", K: k}, fail{Kind: "store-read-deadline", K: k}, fail{Kind: "store-read-eof", K: k})
 						}
 					}
 					if strings.HasPrefix(cfg, "sqlite") && b == batches[0] { // the bus batch size is irrelevant on the streaming path
@@ -223,6 +223,10 @@ func one(run *vk.Run, cfg string, st *stores.Opened, offs []ebu.Offset, batch, L
 		faults.ByKind["yield"] = map[int]stores.Action{f.K: stores.FailCtx}
 	case "store-read-deadline":
 		faults.ByKind["read"] = map[int]stores.Action{f.K: stores.FailCtx}
+	case "store-read-eof": // the connection to the store is dropped in mid-response: the error wraps io.EOF
+		faults.ByKind["read"] = map[int]stores.Action{f.K: stores.FailEOF}
+	case "store-yield-eof":
+		faults.ByKind["yield"] = map[int]stores.Action{f.K: stores.FailEOF}
 	}
 	inner := st.Store
 	if _, streams := inner.(ebu.EventStoreStreamer); !streams && f.Kind != "reentrant-callback" { // a nested replay asks for pages while the outer one is still using its own
@@ -378,7 +382,7 @@ func one(run *vk.Run, cfg string, st *stores.Opened, offs []ebu.Offset, batch, L
 	}
 	injected := false
 	switch f.Kind {
-	case "store-read", "store-stream", "store-yield", "store-yield-deadline", "store-read-deadline":
+	case "store-read", "store-stream", "store-yield", "store-yield-deadline", "store-read-deadline", "store-read-eof", "store-yield-eof":
 		for _, op := range faults.Snapshot() {
 			if op.Err {
 				injected = true
